@@ -4,19 +4,25 @@ import json, os
 here = os.path.dirname(os.path.dirname(os.path.abspath(__file__)))
 ALL = ['C%02d' % i for i in range(1, 21)]
 CLAIMED = {
+ 'C01': dict(
+   text='Theorems over the Gallina model of Packet (wire form for every type and payload kind, decode(encode p) = (type, canonical payload) for both channel kinds with the JSON look-alike rule as a function, standard base64 round trip proved outright against a transcription of CPython a2b_base64, binary-only-MESSAGE on both sides, every sequence of encode calls returns the representation of the channel asked for) for all inputs, no axioms; model compared with engineio.packet.Packet on generated and malformed inputs on every run.',
+   note='Trusted: Coq kernel; hand-written model Packet.v/Base64.v and its differential run; json.dumps/json.loads/int() are standard-library oracles (hypotheses O1, O2 of the theorems, answered from logged tables when the model is run).',
+   technique='Coq proof (induction, lia, finite sweeps) + model/implementation correspondence by vm_compute with logged stdlib oracles',
+   ref='5 C01'),
  'C17': dict(
    text='Theorems over the Gallina model of generate_id (format, injectivity = all 96 random bits and the counter are recoverable, uniqueness in every 2^24 window for arbitrary random outputs, counter step) proved for all inputs with no axioms; the model is compared with BaseServer.generate_id of both servers on every run.',
    note='Trusted: Coq kernel; the hand-written model Sid.v and its differential run against /repo (counter windows incl. wrap, stubbed secrets.token_bytes). The CSPRNG-source clause rests on instrumentation of the call site, not on proof.',
    technique='Coq proof (lia + finite vm_compute sweeps lifted by forallb_forall) + model/implementation correspondence by vm_compute',
    ref='5 C17, Appendix E'),
 }
+FIXES = ['d92cdd4 fix: do not reuse the cached encoding of a binary packet across channel kinds', 'bfaf151 fix: keep deeply nested bracket text as text instead of raising RecursionError']
 PENDING_REASON = 'model and theorems for this property are not built yet in this revision of /verif (work in progress, see DESIGN.md section 9); not a statement that the technique cannot apply'
 m = {
  'version': 1,
  'setup_cmd': 'cd /verif/coq && coq_makefile -f _CoqProject -o Makefile && timeout 1500 make -j16',
  'hooks': {'guard': 'ENGINEIO_VERIF', 'enable': 'no hook is needed: the checks import /repo/src unmodified and inject deterministic drivers from outside; the guard name is reserved and unused',
            'baseline_off_cmd': 'cd /repo && /venv/bin/python -m pytest -ra -q -p no:cacheprovider --timeout=900 --continue-on-collection-errors',
-           'source_commits': [], 'add_only': True},
+           'source_commits': FIXES, 'add_only': True},
  'engines': [{'name': 'coq-model', 'path': 'coq/', 'serves_properties': sorted(CLAIMED), 'kind_free_text': 'Gallina model + theorems, Coq 8.16.1'},
              {'name': 'correspondence', 'path': 'harness/', 'serves_properties': sorted(CLAIMED), 'kind_free_text': 'differential run model (vm_compute) vs /repo working tree + property oracle'}],
  'checks': [], 'not_applicable': [],
